@@ -6,7 +6,7 @@ import ast
 
 from ..cfg import cfg_of
 from ..effprops import api_entries, chain, consistent_flavour, engine, site_loc
-from ..index import AnalysisError, dotted, function_stmts, parent
+from ..index import AnalysisError, dotted, function_stmts, parent, walk_no_nested
 from ..util import callee_last, calls_in, txt
 
 EXPLANATION = (
@@ -20,11 +20,12 @@ EXPLANATION = (
     "with a finally, because another thread observes the override; each obligation names the entry classes (pandas / "
     "polars DataFrameSchema, Column, ...) that reach the write, so a write that becomes reachable from a new entry "
     "family is a new violation even when the site itself is a known finding. (R2) the polars container deep-copies each "
-    "component before overriding dtype/coerce. NOT decided: outcome equality under benign races; races inside "
+    "component before overriding dtype/coerce. (R3) code reachable from DataFrameModel.to_schema iterates class namespaces as a snapshot (list(vars(base).items())), because the first to_schema of another thread adds class attributes. " 
+    "NOT decided: outcome equality under benign races; races inside "
     "pandas/polars/numpy; user callbacks."
 )
 LEVEL_RULE = "one obligation per write site reaching shared state from a validate entry"
-FLOORS = {"R1": 3, "R2": 2}
+FLOORS = {"R1": 3, "R2": 2, "R3": 1}
 
 
 def _under_lock(ix, site_qual, lineno) -> bool:
@@ -51,7 +52,47 @@ def _thread_local_global(ix, root) -> bool:
     return isinstance(v, ast.Call) and (callee_last(v) in ("ContextVar", "local"))
 
 
+def r3_snapshot_iteration_of_class_namespaces(ctx):
+    """DataFrameModel.to_schema fills class attributes lazily (`cls.__checks__ = ...`, `cls.__schema__ = ...`) at the first
+    validation.  Another thread that is iterating the live namespace of the same class (or of a base class shared with a
+    sibling model) at that moment - `for ... in vars(base).items()` - dies with RuntimeError: dictionary changed size during
+    iteration.  Code reachable from to_schema therefore iterates a snapshot (`list(vars(base).items())`)."""
+    ix = ctx.ix
+    m = ix.module("pandera/api/dataframe/model.py")
+    n = 0
+    for f in m.all_functions:
+        for lp in [x for x in walk_no_nested(f.node) if isinstance(x, (ast.For, ast.comprehension))]:
+            it = lp.iter
+            live = isinstance(it, ast.Call) and callee_last(it) in ("items", "keys", "values") and isinstance(it.func, ast.Attribute) and (
+                (isinstance(it.func.value, ast.Call) and callee_last(it.func.value) == "vars") or
+                (isinstance(it.func.value, ast.Attribute) and it.func.value.attr == "__dict__"))
+            snap = isinstance(it, ast.Call) and callee_last(it) in ("list", "tuple", "dict") and any(
+                isinstance(x, ast.Call) and callee_last(x) == "vars" or isinstance(x, ast.Attribute) and x.attr == "__dict__" for x in ast.walk(it))
+            if not (live or snap):
+                continue
+            # only namespaces of model classes are filled lazily by to_schema: `cls` itself or a class taken from its bases / MRO
+            subj = [x for x in ast.walk(it) if isinstance(x, ast.Call) and callee_last(x) == "vars" and x.args and isinstance(x.args[0], ast.Name)]
+            subj_names = {x.args[0].id for x in subj} | {x.value.id for x in ast.walk(it) if isinstance(x, ast.Attribute) and x.attr == "__dict__" and isinstance(x.value, ast.Name)}
+            model_cls = set()
+            for nm in subj_names:
+                if nm in ("cls", "model", "model_cls"):
+                    model_cls.add(nm)
+                for outer in walk_no_nested(f.node):
+                    if isinstance(outer, ast.For) and isinstance(outer.target, ast.Name) and outer.target.id == nm and any(w in txt(outer.iter) for w in ("bases", "mro", "__mro__")):
+                        model_cls.add(nm)
+            if not model_cls:
+                continue
+            n += 1
+            ctx.ob("R3", f, f"{f.short}: the class namespace is iterated as a snapshot", snap,
+                   f"`{txt(it)[:50]}`" if snap else
+                   f"`for ... in {txt(it)[:40]}` iterates the live class dictionary while another thread's first to_schema() adds __checks__ / __schema__ ... to the same class: "
+                   "RuntimeError: dictionary changed size during iteration instead of the verdict", f.loc(it))
+    if n < 1:
+        raise AnalysisError(f"model.py: class-namespace iterations found: {n}")
+
+
 def run(ctx):
+    r3_snapshot_iteration_of_class_namespaces(ctx)
     ix = ctx.ix
     eng = engine(ix)
     sites = {}
